@@ -3,13 +3,18 @@ open Model
 open Util
 open Value
 
-let id_col : column = { c_name = bytes_of_string "id"; c_typid = zi 23; c_len = zi 4; c_num = zi 1; c_align = zi 105 }
+let col name num : column = { c_name = bytes_of_string name; c_typid = zi 23; c_len = zi 4; c_num = zi num; c_align = zi 105 }
+let cols3 = [ col "id" 1; col "b" 2; col "c" 3 ]
 let le32 (x : int) = [ byte_of_int x; byte_of_int (x lsr 8); byte_of_int (x lsr 16); byte_of_int (x lsr 24) ]
 
-(* abstract tuple: (infomask, id) ; page = list of them; file = list of pages *)
+(* abstract tuple: (infomask, id); HEAP_HASNULL (bit 0 of the infomask) decides whether column b is NULL;
+   page = list of them; file = list of pages *)
+let ds_of (mask, id) : datum list =
+  if mask land 1 = 1 then [ DFixed (le32 id); DNull; DFixed (le32 (id + 1)) ] else [ DFixed (le32 id); DFixed (le32 7); DFixed (le32 (id + 1)) ]
 let mk_tup r (mask, id) : tup =
-  { tp_head = rbytes r 18; tp_natts = zi 1; tp_flags2 = zi (rint r 32); tp_infomask = zi (mask land 0xfffe);   (* no null bitmap *)
-    tp_hoff = zi 24; tp_mid = [ byte_of_int 0 ]; tp_data = le32 id }
+  let ds = ds_of (mask, id) in
+  { tp_head = rbytes r 18; tp_natts = zi 3; tp_flags2 = zi (rint r 32); tp_infomask = zi mask;
+    tp_hoff = zi 24; tp_mid = (if mask land 1 = 1 then bitmap_of ds else [ byte_of_int 0 ]); tp_data = fill (zi 0) cols3 ds }
 let mk_page r (ts : (int * int) list) : page =
   let n = List.length ts in
   let lower = 24 + 4 * n in
@@ -25,23 +30,24 @@ let mk_page r (ts : (int * int) list) : page =
   { pg_lsn_etc = rbytes r 12; pg_upper = zi !pos; pg_special = zi 8192; pg_version = zi 4; pg_prune = rbytes r 4;
     pg_lps = lps; pg_body = Array.to_list (Array.map byte_of_int body) }
 
-let row_s id = c_map (expected_row_i [ id_col ] [ DFixed (le32 id) ])
+let row_s (m, id) = c_map (expected_row_i cols3 (ds_of (m, id)))
+let rawlen (m, _) = if m land 1 = 1 then 8 else 12
 let ids l = c_list (List.map string_of_int l)
 let idpo l = c_list (List.map (fun (id, po) -> Printf.sprintf "%d@%d" id po) l)
 
 (* spec side: everything follows from the hint-bit predicates on the abstract tuples *)
 let expected (pages : (int * int) list list) (a : int) (b : int) : string =
-  let all = List.concat (List.mapi (fun i ts -> List.map (fun (m, id) -> (m land 0xfffe, id, 8192 * i)) ts) pages) in
+  let all = List.concat (List.mapi (fun i ts -> List.map (fun (m, id) -> (m, id, 8192 * i)) ts) pages) in
   let lv = List.filter (fun (m, _, _) -> live (zi m)) all and dl = List.filter (fun (m, _, _) -> deleted (zi m)) all in
   let inr = List.filter (fun (_, _, po) -> po >= 8192 * a && po <= 8192 * b) all in
   let inr_l = List.filter (fun (m, _, _) -> live (zi m)) inr in
   let p3 l = List.map (fun (_, id, po) -> (id, po)) l in
   let rel l = List.map (fun (_, id, po) -> (id, po - 8192 * a)) l in
   c_rec [ "all", idpo (p3 all); "vis", idpo (p3 lv); "parsefile", idpo (p3 lv);
-          "rows_all", c_list (List.map (fun (_, id, _) -> row_s id) all); "rows_vis", c_list (List.map (fun (_, id, _) -> row_s id) lv);
-          "del", c_list (List.map (fun (_, id, po) -> Printf.sprintf "{po=%d,raw=4,data=%s}" po (row_s id)) dl);
-          "del_noschema", c_list (List.map (fun (_, id, po) -> Printf.sprintf "{po=%d,raw=4,data=mnil}" po) dl);
-          "rwd_v", c_list (List.map (fun (_, id, _) -> row_s id) lv); "rwd_d", c_list (List.map (fun (_, id, _) -> row_s id) dl);
+          "rows_all", c_list (List.map (fun (m, id, _) -> row_s (m, id)) all); "rows_vis", c_list (List.map (fun (m, id, _) -> row_s (m, id)) lv);
+          "del", c_list (List.map (fun (m, id, po) -> Printf.sprintf "{po=%d,raw=%d,data=%s}" po (rawlen (m, id)) (row_s (m, id))) dl);
+          "del_noschema", c_list (List.map (fun (m, id, po) -> Printf.sprintf "{po=%d,raw=%d,data=mnil}" po (rawlen (m, id))) dl);
+          "rwd_v", c_list (List.map (fun (m, id, _) -> row_s (m, id)) lv); "rwd_d", c_list (List.map (fun (m, id, _) -> row_s (m, id)) dl);
           "range_incl", idpo (rel inr); "range_excl", idpo (rel inr_l) ]
 
 let id_of (e : tupleEntry) : int * int =
@@ -56,10 +62,10 @@ let model (file : byte list) (a : int) (b : int) : string =
   let range = { vis = List.filteri (fun i _ -> i >= 8192 * a && i < 8192 * (b + 1)) file; tail = [] } in
   let del cols = c_res (fun l -> c_list (List.map (fun d -> Printf.sprintf "{po=%s,raw=%s,data=%s}" (zs d.dr_pageoff) (zs d.dr_rawsize)
                                                         (match d.dr_data with None -> "mnil" | Some r -> c_map r)) l)) (readDeletedRows_i s cols) in
-  let rwd = readRowsWithDeleted_i s [ id_col ] in
+  let rwd = readRowsWithDeleted_i s cols3 in
   c_rec [ "all", m_entries (readTuples s false); "vis", m_entries (readTuples s true); "parsefile", m_entries (parseFile s);
-          "rows_all", m_rows (readRows_i s [ id_col ] false); "rows_vis", m_rows (readRows_i s [ id_col ] true);
-          "del", del [ id_col ]; "del_noschema", del [];
+          "rows_all", m_rows (readRows_i s cols3 false); "rows_vis", m_rows (readRows_i s cols3 true);
+          "del", del cols3; "del_noschema", del [];
           "rwd_v", m_rows (match rwd with Ok (v, _) -> Ok v | Panic -> Panic); "rwd_d", m_rows (match rwd with Ok (_, d) -> Ok d | Panic -> Panic);
           "range_incl", (match readTuplesInRange (Some range) true with Some x -> m_entries x | None -> "err");
           "range_excl", (match readTuplesInRange (Some range) false with Some x -> m_entries x | None -> "err") ]
@@ -75,7 +81,7 @@ let kinds = [| 0x0900; 0x0500; 0x0A00; 0x0B00; 0x0100; 0x2500; 0x0000; 0x0D00; 0
 
 let tuple_class r mask =
   (* one stored tuple with this infomask, any other header bits: classification through ParseHeapTuple + IsVisible *)
-  let t = { (mk_tup r (mask, mask)) with tp_infomask = zi mask; tp_mid = [ byte_of_int (rbyte r) ] } in
+  let t = mk_tup r (mask, mask) in
   let v = enc_tuple t in
   let s = Printf.sprintf "live=%b,deleted=%b" (live (zi mask)) (deleted (zi mask)) in
   let m = match parseHeapTuple { vis = v; tail = [] } with
@@ -96,7 +102,7 @@ let gen seed n =
     let np = rrange r 1 3 in
     let ctr = ref 0 in
     let pages = List.init np (fun _ -> List.init (rint r 9) (fun _ -> incr ctr;
-                                  ((if rint r 4 = 0 then ZA.to_int (rbits r 16) else pick r kinds lor (rint r 256 land 0xfe)), 1000 * k + !ctr))) in
+                                  ((if rint r 4 = 0 then ZA.to_int (rbits r 16) else pick r kinds lor (rint r 256)), 1000 * k + !ctr))) in
     run ~tag:"mixed_versions" r pages
   done
 let () = main gen
